@@ -1,5 +1,6 @@
 import Cardutil.Model.Iso8583
 import Cardutil.Lemmas.PyInt
+import Cardutil.Lemmas.Dict
 /-
   Lemmas for PDS packing (`_pds_to_de`) and recovery (`_pds_to_dict`) — C12, reused by C01.
 -/
@@ -235,5 +236,36 @@ theorem pdsToDict_entries {k : IntClasses} (hk : k.Sane) (ents : List (Text × T
       simp only [List.flatMap_cons, List.length_append, List.length_cons, entryOf_length e.1 e.2 ht hv]
       omega
   omega
+
+/-- the packed strings go to the carriers in ascending order; other entries are untouched -/
+theorem assignCarriers_spec (carriers : List Nat) (chunks : List Text) (m : Dict) (hlen : chunks.length ≤ carriers.length)
+    (hnd : carriers.Nodup) :
+    ∃ m', assignCarriers carriers chunks m = .ok m' ∧
+      (∀ i (hi : i < chunks.length), Dict.get m' (.de (carriers[i]'(by omega))) = some (.str chunks[i])) ∧
+      (∀ k, (∀ i (hi : i < chunks.length), k ≠ .de (carriers[i]'(by omega))) → Dict.get m' k = Dict.get m k) := by
+  induction chunks generalizing carriers m with
+  | nil => exact ⟨m, by cases carriers <;> rfl, by intro i hi; simp at hi, fun _ _ => rfl⟩
+  | cons t ts ih =>
+    cases carriers with
+    | nil => simp at hlen
+    | cons c cs =>
+      simp only [List.nodup_cons] at hnd
+      obtain ⟨m', hm', hget, hother⟩ := ih cs (Dict.set m (.de c) (.str t)) (by simpa using hlen) hnd.2
+      refine ⟨m', by simpa [assignCarriers] using hm', ?_, ?_⟩
+      · intro i hi
+        cases i with
+        | zero =>
+          simp only [List.getElem_cons_zero]
+          rw [hother (.de c) (by
+            intro j hj heq
+            have : c = cs[j]'(by simp at hlen; omega) := by simpa using heq
+            exact hnd.1 (this ▸ List.getElem_mem _)), Dict.get_set_same]
+        | succ j =>
+          simp only [List.getElem_cons_succ]
+          exact hget j (by simpa using hi)
+      · intro k hk
+        rw [hother k (fun j hj => hk (j + 1) (by simpa using hj)), Dict.get_set_other]
+        exact (hk 0 (by simp)).symm
+
 
 end Cardutil.Iso
